@@ -76,6 +76,7 @@ class ExecBase:
         self.fn_qual = contract.qual
         self.enum_cache = {}
         self.n_forks = 0
+        self.abstracted = []
         self.max_states = int(self.opts.get("max_states", 4000))
 
     # ------------------------------------------------------------------------------------------
@@ -271,7 +272,24 @@ class ExecBase:
         m = getattr(self, "e_" + type(node).__name__, None)
         if m is None:
             self.oos(f"expression {type(node).__name__} not supported", node)
-        return m(node, st)
+        if not self.opts.get("abstract_unsupported") or self.depth > 0:
+            return m(node, st)
+        try:
+            return m(node, st)
+        except OutOfSubset as e:
+            return self.abstract_node(node, st, e)
+
+    def abstract_node(self, node, st, err):
+        """Tracked-state slicing (DESIGN App. B): an expression outside the subset is replaced by an unknown value that
+        may raise — allowed only if its source text mentions none of the tracked names (syntactic frame check)."""
+        text = ast.unparse(node)
+        for t in self.opts.get("tracked_names", ()):
+            if t in text:
+                raise err
+        self.abstracted.append((getattr(node, "lineno", 0), text[:80], str(err)[-80:]))
+        flag = fresh("abstracted_raises", BoolS)
+        self.may_raise(st, flag, Exc(None, origin="abstracted expression"), node)
+        return Val("any", fresh("abstracted", Any))
 
     def evalv(self, node, st) -> Val:
         return self.as_val(self.eval(node, st), st, node)
@@ -294,6 +312,9 @@ class ExecBase:
             return ("old",)
         if n in ("True", "False", "None"):
             return const_to_val({"True": True, "False": False, "None": None}[n])
+        if self.opts.get("abstract_unsupported") and self.depth == 0 and n in getattr(self, "local_names", ()):
+            # a local that is bound on some merged paths only: unknown value (slicing mode)
+            return Val("any", fresh("maybe_unbound_" + n, Any))
         r = self.resolve_global(n, node)
         if r is None:
             self.oos(f"unbound name {n}", node)
@@ -943,6 +964,8 @@ class ExecBase:
             del self.pending[npend:]
             self.assumptions.add(f"comprehension at line {node.lineno}: element expression assumed not to raise")
         R = fresh("comp", ListS)
+        if self.opts.get("abstract_comprehensions"):
+            return self.mk_list(st, Val("l", R))  # slicing mode: the comprehension result is an unknown list
         n = z3.Length(xs)
         rng = z3.And(ic >= 0, ic < n)
         if not g.ifs:
